@@ -10,14 +10,16 @@ from __future__ import annotations
 import json
 from typing import Any
 
-from .. import leanio
-from ..core import Ctx
+import ast
+
+from .. import leanio, pyextract
+from ..core import Ctx, ExtractError
 from ..sim import pool
 
 ID = "C02"
 LEVEL = "proof"
-ENGINES = ["lean-model", "kopfsim"]
-TIE = "S: step refinement — each real handling pass (closed-loop simulation incl. restarts/kills) replayed through the Lean `cycle`"
+ENGINES = ["lean-model", "pyextract", "kopfsim"]
+TIE = "T (HandlerState booleans, with_outcome flags, lifecycles re-extracted and re-proved) + S: step refinement — each real handling pass (closed-loop simulation incl. restarts/kills) replayed through the Lean `cycle`"
 LEVEL_TEXT = ("Lean theorems for all stored-record maps, outcome scripts, lifecycles (one_by_one/all_at_once/asap), clocks and any "
               "placement of restarts/foreign events between passes: no_rerun, retry_kwarg, invoked_selected_awake, "
               "closed_iff_all_finished, closed_purges(+subrefs), finished_persists, final_outcome_recorded, "
@@ -29,6 +31,8 @@ THEOREMS = [("Kopf.Props.C02", "Kopf.C02." + n) for n in [
     "no_rerun", "retry_kwarg", "invoked_selected_awake", "closed_iff_all_finished", "closed_purges",
     "closed_purges_subrefs", "finished_persists", "final_outcome_recorded", "noExtras_preserved",
     "finished_never_invoked", "once_per_cycle", "stale_view_reruns"]]
+TIE_THEOREMS = [("Kopf.Tie.C02", "Kopf.C02.Tie." + n) for n in [
+    "finished_eq", "sleeping_eq", "awakened_eq", "success_eq", "failure_eq", "one_by_one_eq", "all_at_once_eq"]]
 RULE = ("seeded scenarios: 1-4 change handlers (create/update/delete/resume, optional sub-handlers), outcome scripts over "
         "ok/temporary(delay)/permanent/arbitrary, retries/timeout/backoff/errors settings, three lifecycles, object edits, deletion, "
         "graceful stops and kills with restarts at random dyadic times; one case = one handling pass; distinct & non-trivial = "
@@ -40,6 +44,84 @@ ASSUMPTIONS = ["randomized/shuffled lifecycles are not modelled (they draw from 
 
 OWN_PREFIX = "kopf.zalando.org/"
 KINDS = ["create", "update", "delete", "resume"]
+
+
+REC_VOCAB = {
+    "self.success": "r.success", "self.failure": "r.failure", "self.finished": "(Rec.finished r)",
+    "self.sleeping": "(Rec.sleeping r now)", "self.delayed is not None": "r.delayed.isSome",
+    "self.delayed > now": "(match r.delayed with | some d => decide (d > now) | none => false)",
+}
+OUT_VOCAB = {"outcome.final": "o.final", "outcome.exception is None": "(!o.error)", "outcome.exception is not None": "o.error"}
+
+
+def _unbool(e: ast.expr) -> ast.expr:
+    if isinstance(e, ast.Call) and pyextract.norm(e.func) == "bool" and len(e.args) == 1 and not e.keywords:
+        return e.args[0]
+    return e
+
+
+def _property_expr(cls: ast.ClassDef, name: str) -> ast.expr:
+    fn = pyextract.find_def(cls, name)
+    body = [st for st in pyextract.body_without_docstring(fn)
+            if not (isinstance(st, ast.Assign) and pyextract.norm(st.targets[0]) == "now")]
+    if len(body) != 1 or not isinstance(body[0], ast.Return) or body[0].value is None:
+        raise ExtractError(f"HandlerState.{name} is no longer a single boolean return")
+    return _unbool(body[0].value)
+
+
+def extract(ctx: Ctx) -> None:
+    """T-tie for the boolean definitions the pass depends on: HandlerState.finished/sleeping/awakened,
+    the success/failure flags of `with_outcome`, and the two list-slicing lifecycles."""
+    tree = pyextract.parse_file(ctx.repo / "kopf/_core/actions/progression.py")
+    cls = pyextract.find_def(tree, "HandlerState")
+    tr = pyextract.BoolTranslator(REC_VOCAB)
+    fin = tr.tr(_property_expr(cls, "finished"))
+    slp = tr.tr(_property_expr(cls, "sleeping"))
+    awk = tr.tr(_property_expr(cls, "awakened"))
+    wo = pyextract.find_def(cls, "with_outcome")
+    rets = [st for st in wo.body if isinstance(st, ast.Return)]
+    if len(rets) != 1 or not isinstance(rets[0].value, ast.Call):
+        raise ExtractError("with_outcome no longer returns a single constructor call")
+    kws = {k.arg: k.value for k in rets[0].value.keywords}
+    otr = pyextract.BoolTranslator(OUT_VOCAB)
+    try:
+        succ = otr.tr(_unbool(kws["success"]))
+        fail = otr.tr(_unbool(kws["failure"]))
+        retr = pyextract.norm(kws["retries"])
+        dly = pyextract.norm(kws["delayed"])
+    except KeyError as e:
+        raise ExtractError(f"with_outcome lost the keyword {e}")
+    if retr != "(self.retries if self.retries is not None else 0) + 1":
+        raise ExtractError(f"with_outcome.retries changed: `{retr}`")
+    if dly != "now + datetime.timedelta(seconds=outcome.delay) if outcome.delay is not None else None":
+        raise ExtractError(f"with_outcome.delayed changed: `{dly}`")
+    ltree = pyextract.parse_file(ctx.repo / "kopf/_core/actions/lifecycles.py")
+    lc = {}
+    for name in ("all_at_once", "one_by_one"):
+        fn = pyextract.find_def(ltree, name)
+        body = pyextract.body_without_docstring(fn)
+        if len(body) != 1 or not isinstance(body[0], ast.Return):
+            raise ExtractError(f"lifecycle {name} is no longer a single return")
+        lc[name] = pyextract.norm(body[0].value)
+    lean_lc = {"handlers": "todo", "handlers[:1]": "todo.take 1"}
+    for name, text in lc.items():
+        if text not in lean_lc:
+            raise ExtractError(f"lifecycle {name} returns `{text}`, outside the accepted shapes")
+    asap = pyextract.find_def(ltree, "asap")
+    asap_ret = [pyextract.norm(st.value) for st in asap.body if isinstance(st, ast.Return)]
+    if asap_ret != ["sorted(handlers, key=keyfn)[:1]"]:
+        raise ExtractError(f"lifecycle asap changed: {asap_ret}")
+    out = pyextract.HEADER.format(src="kopf/_core/actions/progression.py, lifecycles.py")
+    out += "import Kopf.Model.C02_Cycle\nnamespace Kopf.C02.Extracted\nopen Kopf.C02\n\n"
+    out += f"def finished (r : Rec) : Bool := {fin}\n"
+    out += f"def sleeping (r : Rec) (now : Tick) : Bool := {slp}\n"
+    out += f"def awakened (r : Rec) (now : Tick) : Bool := {awk}\n"
+    out += f"def success (o : Outcome) : Bool := {succ}\n"
+    out += f"def failure (o : Outcome) : Bool := {fail}\n"
+    out += f"def allAtOnce (todo : List Id) : List Id := {lean_lc[lc['all_at_once']]}\n"
+    out += f"def oneByOne (todo : List Id) : List Id := {lean_lc[lc['one_by_one']]}\n"
+    out += "\nend Kopf.C02.Extracted\n"
+    leanio.write_generated("Kopf/Extracted/C02.lean", out)
 
 
 def gen_scenario(rng: Any, i: int) -> dict:
